@@ -66,6 +66,8 @@ static std::string handle(const Toks & t)
   }
   if (op == "rate.stamp" && t.size() == 2) {
     if (!mon) { throw vp::BadOp(); }
+    // VALUE SEMANTICS: every seventh stamp the monitor is replaced by a copy of itself (copy constructor) and the original destroyed
+    { static unsigned long stamps = 0; if (++stamps % 7 == 0) { std::unique_ptr<RateMonitoring> c(new RateMonitoring(*mon)); mon = std::move(c); } }
     double r = mon->update(Duration(vp::parseI(t[1])));
     if (r != mon->getRate()) { return "update-vs-getRate-mismatch"; }
     return "rate " + vp::fmtD(r);
